@@ -242,6 +242,19 @@ func verifPayload(L int, sf verifSpanFill) []byte {
 
 // ---- the harness --------------------------------------------------------------
 
+// verifChooseIdx picks an index 0..n-1 as two choices (block of 8, offset), so
+// that the engine's sharding on the first two choice levels can skip whole
+// blocks that belong to another shard.
+func verifChooseIdx(x *mc.X, n int) int {
+	const k = 8
+	hi := x.Choose((n + k - 1) / k)
+	rem := n - hi*k
+	if rem > k {
+		rem = k
+	}
+	return hi*k + x.Choose(rem)
+}
+
 func TestVerifC04(t *testing.T) {
 	C := boson.ChunkSize
 	real := C > 4096
@@ -306,7 +319,7 @@ func TestVerifC04(t *testing.T) {
 			ops = verifOps(L, C, thorough)
 			opsMemo[L] = ops
 		}
-		op := ops[x.Choose(len(ops))]
+		op := ops[verifChooseIdx(x, len(ops))]
 		sfi := 0
 		if L < 8 {
 			sfi = []int{0, 2}[x.Choose(2)] // span truncated: only the fill matters
